@@ -225,22 +225,23 @@ struct RefillSpec { cfg: Cfg, phases: Vec<(usize, u64)>, kind: &'static str } //
 fn refill_specs(rng: &mut Rng, n: usize) -> Vec<RefillSpec> {
     let mut v = vec![];
     for i in 0..n {
+        let round = i / 4;
         let s = match i % 4 {
-            // tokens only: 5 tokens/s, the window counter cannot bind (2 + 5*3s < 50)
-            0 => { let burst = rng.range(1, 3) as u32;
-                   let sl = *rng.pick(&[100u64, 300, 500, 700]);
+            // tokens only: 5 tokens/s, the window counter cannot bind (at most 12 calls, max 50)
+            0 => { let burst = 1 + (round % 3) as u32;
+                   let sl = [700u64, 100, 300, 500][round % 4];
                    let sl2 = *rng.pick(&[100u64, 300, 500]);
                    RefillSpec { cfg: Cfg { window_ns: 10 * NS, max: 50, burst }, kind: "refill-tokens",
                        phases: vec![(burst as usize + 1, 0), (4, sl), (4, sl2)] } }
             // window expiry: everything comes back after more than one window
-            1 => { let m = rng.range(1, 4) as u32;
+            1 => { let m = 1 + (round % 4) as u32;
                    RefillSpec { cfg: Cfg { window_ns: NS / 5, max: m, burst: m }, kind: "refill-window-reset",
                        phases: vec![(m as usize + 2, 0), (m as usize + 2, 500)] } }
             // window counter binds although tokens remain; then expiry
             2 => RefillSpec { cfg: Cfg { window_ns: 600_000_000, max: 2, burst: 4 }, kind: "refill-window-binds",
                        phases: vec![(5, 0), (3, 150), (4, 800)] },
-            // slow refill, burst 1: one token per 400 ms
-            _ => { let sl = *rng.pick(&[200u64, 600, 1000]);
+            // slow refill, burst 1: one token per 400 ms; 1000 ms would earn 2.5 tokens but the cap is 1
+            _ => { let sl = [1000u64, 200, 600][round % 3];
                    RefillSpec { cfg: Cfg { window_ns: 4 * NS, max: 10, burst: 1 }, kind: "refill-slow",
                        phases: vec![(2, 0), (3, sl), (2, 200)] } }
         };
@@ -365,7 +366,8 @@ fn main() {
     made = 0; attempts = 0;
     while made < 250 * mult && attempts < 1000 * mult {
         attempts += 1;
-        let jc = pick_jcfg(&mut rng);
+        let is_default = rng.chance(1, 3);
+        let jc = if is_default { default_jcfg() } else { pick_jcfg(&mut rng) };
         let (tr, kind) = join_scenario(&mut rng, &jc);
         if tr.is_empty() { continue; }
         let ips: Vec<IpAddr> = tr.iter().map(|a| a.ip()).collect();
@@ -376,6 +378,13 @@ fn main() {
         if (jc.maxmax() as u128) * t >= JOIN_MIN_WINDOW_NS { sum.discarded_ambiguous += 1; continue; }
         if let Some(what) = join_caps_violated(&jc, &tr, &obs) {
             sum.violation(id, &format!("join caps exceeded in a zero-refill burst: {}", what), &[], json!({"cfg": jc.json()}));
+        }
+        if is_default {
+            // the numbers the property text states for the shipped defaults
+            let stated = JCfg { p64: 1, p48: 5, p24: 3, gmax: 100, gburst: 10 };
+            if let Some(what) = join_caps_violated(&stated, &tr, &obs) {
+                sum.violation(id, &format!("JoinRateLimiterConfig::default() admits more than the stated 1 per /64, 5 per /48, 3 per /24, burst 10: {}", what), &[], json!({"default_cfg": jc.json()}));
+            }
         }
         w.push(id, format!("CJoin {} {} {}", jc.coq(), coq_list(tr.iter().map(|a| format!("(0, {})", a.coq()))), coq_list(obs.iter().map(|r| r.coq().to_string()))));
         let adm = obs.iter().filter(|r| **r == JR::Ok).count();
